@@ -40,6 +40,36 @@
     finding F27: a temporary filter installed while nothing has been consumed skips
     the rejected tokens eagerly): `C06_finding_F27` proves its negation on the
     two-token text ` a`.
+  * `C06_scoped`, `C06_filter_scope_refines` (PROVED) — the complement of F27.  `Exact lx s`
+    ("consumed and exact") says: `lx.parseStart ≠ lx.cursor` (a token has been consumed since the
+    start of the current (sub-)parse, so `buffer_next` never moves the cursor) and `s.rest` is
+    *exactly* the raw stream at the lexer's scanner/cursor (`Abs` alone allows a slack of leading
+    rejected tokens).  It holds after every delivered token, and `peek`, `set_filter` keep it: with
+    something consumed `set_filter` only drops the lookahead and re-fills it from the unchanged
+    cursor, so the newly installed filter sees the very raw tokens the reference evaluator sees,
+    and so does the restored filter at the end of the scope.
+    `scopedG c g` is the fragment relative to the flag `c` = "`Exact` holds on entry": all of
+    `pegWithRep` (`C06_scoped_extends`), plus `filter_with(mask, a)` / `unfiltered(a)` where the flag
+    is set and `a` (in the fragment with the flag set) leaves it set, plus `sub(a)` with `a` in the
+    fragment for the *cleared* flag (`sub` restarts the parse span).  `out c g` computes the flag
+    after a success of `g`: set after `one any any_index pred`, non-empty `seq`; threaded through
+    `left right both center`, the `implies` family (the consequent is entered in the state the
+    antecedent left); `either` needs both branches, `maybe`/`cond(false)` keep the entry flag;
+    repetitions use the flag that is invariant in the loop.  `pegScoped g = scopedG false g`.
+    - `C06_filter_scope_refines` (dynamic form): for every `g` with `scopedG true g` — in particular
+      `filter_with(mask, a)` and `unfiltered(a)` with `scopedG true a`, `out true a`
+      (`C06_filter_with_refines`) — every fuel, context, world and every `lx`/`s` with `Abs lx s`
+      and `Exact lx s`: the four clauses of `C07_partial` (same value and related states on
+      success, reference fails on error, fuel, no panic), and the resulting states are `Exact`
+      again when `out true g`.
+    - `C06_scoped` (syntactic corollary): the same four clauses for `pegScoped g` and *any* related
+      `lx`/`s` (no `Exact` needed on entry); the result is `Exact` when `out false g`.
+    - The two side conditions are necessary (`C06_scoped_needs_body_consumes`,
+      `C06_scoped_needs_sub_reset`, both on `a ws b`): the model's `sub` skips rejected tokens
+      only when the lexer holds no lookahead (F19), the reference `sub` always drops them; a filter
+      change before the next token is consumed then shows different streams — model accepts,
+      reference fails.  The first one is *not* covered by F27's description: the scope is entered
+      after a token was consumed, it is the *restored* filter that is installed at a parse start.
   * The three interim theorems are kept.
 
   Lean: `run` is the model of tephra-combinator (TephraModel.Run), `Spec.peg` the
@@ -50,6 +80,7 @@
 import TephraModel.Run
 import TephraModel.Spec.Peg
 import TephraProofs.PegRefine
+import TephraProofs.PegScoped
 import TephraProofs.PegCapture
 import TephraProofs.LexOpsProof
 
@@ -213,5 +244,140 @@ example : ScanOK EW mW 3 ∧ PassOK EW ∧ Abs EW mW 3 lxW sW ∧ pegCore (.both
   refine ⟨scanW_ok, passW, absW, rfl, ?_⟩
   simp [okVal, run, lxW, ctxW, RW, EW, scanW, mW, Lexer.withFilter, Lexer.setFilter, Lexer.new,
     Lexer.bufferNext, Lexer.bufferLoop, Lexer.next, Lexer.nextLoop, Lexer.filtered, passesMask, classOf, Pos.zero]
+
+/-! ### the complement of F27: filter scopes entered after a token was consumed -/
+
+open Tephra.PegScoped
+
+/-- the clauses of the refinement statements, from a simulation at every reference fuel `k ≥ 2 n` -/
+theorem C06_sim_clauses {R : RunEnv} {m : Metrics} {len : Nat} {c : Bool} {n : Nat} {g : G} {lx : Lx}
+    {s : PState} {ctx : Ctx} {W : World}
+    (key : ∀ k, 2 * n ≤ k → SimG (AbsB R.E m len c) (run R n g lx ctx W).1 (peg R.text k g s)) :
+    (∀ v lx', (run R n g lx ctx W).1 = .ok v lx' → ∀ k, 2 * n ≤ k →
+      ∃ s', peg R.text k g s = .ok v s' ∧ Abs R.E m len lx' s' ∧ (c = true → Exact R.E m len lx' s')) ∧
+    (∀ e, (run R n g lx ctx W).1 = .err e → ∀ k, 2 * n ≤ k → peg R.text k g s = .fail) ∧
+    (∀ k, 2 * n ≤ k → peg R.text k g s = .fuel → (run R n g lx ctx W).1 = .fuel) ∧
+    (run R n g lx ctx W).1 ≠ .panic := by
+  refine ⟨?_, ?_, ?_, ?_⟩
+  · intro v lx' h k hk
+    have := key k hk
+    rw [h] at this
+    obtain ⟨s', h1, h2⟩ := this
+    exact ⟨s', h1, h2.1, h2.2⟩
+  · intro e h k hk
+    have := key k hk
+    rw [h] at this
+    exact this
+  · intro k hk h
+    have := key k hk
+    rw [h] at this
+    cases hr : (run R n g lx ctx W).1 with
+    | fuel => rfl
+    | ok v lx' => rw [hr] at this; obtain ⟨_, h', _⟩ := this; cases h'
+    | err e => rw [hr] at this; cases this
+    | panic => rw [hr] at this; exact this.elim
+  · intro h
+    have := key (2 * n) (Nat.le_refl _)
+    rw [h] at this
+    exact this
+
+/-- PROVED (dynamic form): in a state where a token has been consumed since the parse start and
+the reference state is exact (`Exact`), every grammar of the fragment `scopedG true` — filter scopes
+and `sub` included — refines the reference evaluator; the resulting states are exact again when
+`out true g`. -/
+theorem C06_filter_scope_refines (R : RunEnv) (m : Metrics) (len : Nat) (ok : ScanOK R.E m len) (hp : PassOK R.E)
+    (n : Nat) (g : G) (lx : Lx) (s : PState) (ctx : Ctx) (W : World)
+    (hg : scopedG true g = true) (a : Abs R.E m len lx s) (x : Exact R.E m len lx s) :
+    (∀ v lx', (run R n g lx ctx W).1 = .ok v lx' → ∀ k, 2 * n ≤ k →
+      ∃ s', peg R.text k g s = .ok v s' ∧ Abs R.E m len lx' s' ∧
+        (out true g = true → Exact R.E m len lx' s')) ∧
+    (∀ e, (run R n g lx ctx W).1 = .err e → ∀ k, 2 * n ≤ k → peg R.text k g s = .fail) ∧
+    (∀ k, 2 * n ≤ k → peg R.text k g s = .fuel → (run R n g lx ctx W).1 = .fuel) ∧
+    (run R n g lx ctx W).1 ≠ .panic :=
+  C06_sim_clauses (fun k hk => scoped_sim ok hp n n (Nat.le_refl n) k hk g true lx s ctx W hg ⟨a, fun _ => x⟩)
+
+/-- The filter scopes themselves: `filter_with(mask, a)` / `unfiltered(a)` entered in an exact state,
+`a` in the fragment and leaving the state exact.  The inner parser sees the raw stream under the
+other filter, afterwards the outer filter is back and the states are related and exact again. -/
+theorem C06_filter_with_refines (R : RunEnv) (m : Metrics) (len : Nat) (ok : ScanOK R.E m len) (hp : PassOK R.E)
+    (n : Nat) (g a : G) (mask : Nat) (lx : Lx) (s : PState) (ctx : Ctx) (W : World)
+    (hgs : g = .filterWith mask a ∨ g = .unfiltered a)
+    (ha : scopedG true a = true) (ho : out true a = true)
+    (ab : Abs R.E m len lx s) (x : Exact R.E m len lx s) :
+    (∀ v lx', (run R n g lx ctx W).1 = .ok v lx' → ∀ k, 2 * n ≤ k →
+      ∃ s', peg R.text k g s = .ok v s' ∧ Abs R.E m len lx' s' ∧ Exact R.E m len lx' s' ∧
+        s'.filter = s.filter) ∧
+    (∀ e, (run R n g lx ctx W).1 = .err e → ∀ k, 2 * n ≤ k → peg R.text k g s = .fail) ∧
+    (run R n g lx ctx W).1 ≠ .panic := by
+  have hg : scopedG true g = true ∧ out true g = true := by
+    rcases hgs with rfl | rfl <;> simp [scopedG, out, ha, ho]
+  obtain ⟨h1, h2, _, h4⟩ := C06_filter_scope_refines R m len ok hp n g lx s ctx W hg.1 ab x
+  refine ⟨?_, h2, h4⟩
+  intro v lx' h k hk
+  obtain ⟨s', e, a', x'⟩ := h1 v lx' h k hk
+  refine ⟨s', e, a', x' hg.2, ?_⟩
+  obtain ⟨k, rfl⟩ : ∃ k', k = k' + 1 := by
+    cases k with
+    | zero => simp [peg] at e
+    | succ k => exact ⟨k, rfl⟩
+  rcases hgs with rfl | rfl <;> simp only [peg, bindOk] at e <;>
+    (generalize peg R.text k a _ = r at e; cases r <;> simp only [] at e <;> cases e; rfl)
+
+/-- PROVED (syntactic corollary): on `pegScoped` — `pegWithRep` plus filter scopes that occur only where
+a token has certainly been consumed in the same (sub-)parse, plus `sub` — `run` refines `Spec.peg` from
+any related pair of states. -/
+theorem C06_scoped (R : RunEnv) (m : Metrics) (len : Nat) (ok : ScanOK R.E m len) (hp : PassOK R.E)
+    (n : Nat) (g : G) (lx : Lx) (s : PState) (ctx : Ctx) (W : World)
+    (hg : pegScoped g = true) (a : Abs R.E m len lx s) :
+    (∀ v lx', (run R n g lx ctx W).1 = .ok v lx' → ∀ k, 2 * n ≤ k →
+      ∃ s', peg R.text k g s = .ok v s' ∧ Abs R.E m len lx' s' ∧
+        (out false g = true → Exact R.E m len lx' s')) ∧
+    (∀ e, (run R n g lx ctx W).1 = .err e → ∀ k, 2 * n ≤ k → peg R.text k g s = .fail) ∧
+    (∀ k, 2 * n ≤ k → peg R.text k g s = .fuel → (run R n g lx ctx W).1 = .fuel) ∧
+    (run R n g lx ctx W).1 ≠ .panic :=
+  C06_sim_clauses (fun k hk => scoped_sim ok hp n n (Nat.le_refl n) k hk g false lx s ctx W hg
+    ⟨a, fun h => nomatch h⟩)
+
+/-- The scoped fragment contains the C07 fragment (for either flag), and a set flag only helps. -/
+theorem C06_scoped_extends (g : G) :
+    (pegWithRep g = true → ∀ c, scopedG c g = true) ∧ (pegScoped g = true → scopedG true g = true) :=
+  ⟨fun h c => withRep_scoped g c h, fun h => scopedG_mono g (fun _ => rfl) h⟩
+
+open PegRefine.Witness PegScoped.Witness in
+/-- Necessity of `out true a` for the body of a scope: on `a ws b`, no filter,
+`both(one(a), both(filter_with(ws-filter, sub(empty)), one(ws)))` — the scope is entered after `a` was
+consumed, but its body ends with an empty sub-parse, so the old filter is restored at a parse start —
+the model accepts `(a, ((), ws))`, the reference evaluator fails. -/
+theorem C06_scoped_needs_body_consumes :
+    scopedG true (.sub .empty) = true ∧ out true (.sub .empty) = false ∧
+    Abs EW mW 3 (Lexer.new 0 mW 3) sN ∧
+    rVal (run RW 6 gT (Lexer.new 0 mW 3) ctxW World.init).1 =
+      some (.pair (.tok ⟨0, 0⟩) (.pair .unit (.tok ⟨12, 0⟩))) ∧
+    isFailP (peg RW.text 12 gT sN) = true :=
+  ⟨by decide, by decide, absN, runT, pegT⟩
+
+open PegRefine.Witness PegScoped.Witness in
+/-- Necessity of clearing the flag for the body of `sub`: on `a ws b` with the whitespace filter,
+`both(one(a), both(seq_count([5]), sub(unfiltered(one(ws)))))` — `seq_count` leaves a lookahead, `sub`
+then does not skip the whitespace while the reference `sub` drops it — the model accepts, the reference
+evaluator fails. -/
+theorem C06_scoped_needs_sub_reset :
+    scopedG true (.unfiltered (.one 12)) = true ∧ scopedG false (.unfiltered (.one 12)) = false ∧
+    rVal (run RW 6 gU lxW ctxW World.init).1 =
+      some (.pair (.tok ⟨0, 0⟩) (.pair (.count 0) (.tok ⟨12, 0⟩))) ∧
+    isFailP (peg RW.text 12 gU sW) = true :=
+  ⟨by decide, by decide, runU, pegU⟩
+
+open PegRefine.Witness PegScoped.Witness in
+/-- Non-vacuity of `C06_scoped` (and of `C06_filter_scope_refines` for its second operand): on `a ws b`
+with the whitespace filter, `both(one(a), unfiltered(one(ws)))` is in the fragment, the model delivers
+`(a, ws)`, and so does the reference evaluator, whose remaining raw stream is `b` under the restored
+whitespace filter — to which the model's final lexer is related by the theorem. -/
+example : ScanOK EW mW 3 ∧ PassOK EW ∧ Abs EW mW 3 lxW sW ∧ pegScoped gS = true ∧
+    gS = .both (.one 0) (.unfiltered (.one 12)) ∧
+    rVal (run RW 5 gS lxW ctxW World.init).1 = some (.pair (.tok ⟨0, 0⟩) (.tok ⟨12, 0⟩)) ∧
+    pVal (peg RW.text 10 gS sW) = some (.pair (.tok ⟨0, 0⟩) (.tok ⟨12, 0⟩)) ∧
+    pRest (peg RW.text 10 gS sW) = some ([1], some 1) :=
+  ⟨scanW_ok, passW, absW, gS_scoped, rfl, runS, pegS.1, pegS.2⟩
 
 end Tephra.Props
